@@ -289,10 +289,11 @@ impl AggregateOperator for MultiGrouper {
             }
             res_map
         });
-        Aggregate {
-            columns,
-            data: data.collect(),
-        }
+        // The state is a HashMap: emit the groups in key order rather than in hash order, so
+        // that downstream row operators (limit, total, ...) see a reproducible table.
+        let mut data: Vec<Data> = data.collect();
+        data.sort_by(data::Record::ordering_ref(&self.key_col_headers));
+        Aggregate { columns, data }
     }
 
     fn process(&mut self, row: Row) {
